@@ -616,7 +616,8 @@ fn dim_keys_disjoint(cfg: &EmfCfg, e: &GenEntry) -> bool {
             return false;
         }
         for key in keys {
-            if strings.contains(key) {
+            // same clauses as `EmfSpec.dimKeysDisjoint` (keysNotAws, keysNotStrings, keysNotMetrics)
+            if key == "_aws" || strings.contains(key) {
                 return false;
             }
             if metrics.iter().any(|(n, r2)| r2.as_ref() == Some(k) && *n == key) {
